@@ -63,6 +63,11 @@ def parseGen (s : String) : Option Nat :=
 
 def roleStr (b : Bool) : String := if b then "L" else "F"
 
+def ctxErrStr : CtxErr → String
+  | .none => "none"
+  | .deadline => "deadline"
+  | .canceled => "canceled"
+
 def step (st : State) (w : List String) : State × String :=
   match w with
   | ["rw", "new", dp, internal] =>
@@ -121,6 +126,31 @@ def step (st : State) (w : List String) : State × String :=
     let r2 := r.1.join 0
     let w' := r2.1.timeout r.2.1
     (st, s!"follower={roleStr r2.2.2} closed={boolStr (genClosed w' r.2.1)} {genStr w' r.2.1}")
+  | ["eff", e, hd, past] =>
+    match (if e == "none" then some CtxErr.none else if e == "deadline" then some CtxErr.deadline
+           else if e == "canceled" then some CtxErr.canceled else none), parseBool hd, parseBool past with
+    | some err, some h, some p => (st, ctxErrStr (effectiveError err h p))
+    | _, _, _ => (st, "bad-op")
+  | ["proc", role, ctx] =>
+    -- ctx kinds of the driver: live | late (deadline passed, timer not fired) | expired | lazy | canceled
+    let c : Option (CtxErr × Bool) :=   -- (EffectiveError, Done channel closed)
+      if ctx == "live" then some (effectiveError .none true false, false)
+      else if ctx == "late" then some (effectiveError .none true true, false)
+      else if ctx == "expired" || ctx == "lazy" then some (effectiveError .deadline true true, true)
+      else if ctx == "canceled" then some (effectiveError .canceled false false, true)
+      else none
+    match c, (if role == "leader" then some true else if role == "follower" then some false else none) with
+    | some (e, doneClosed), some leader =>
+      let p := procScenario 1 leader e (!doneClosed)
+      let out := match p.pc with
+        | .terminated .timeoutFail => "servfail"
+        | .terminated .downstream => "down"
+        | .terminated .canceled => "none"
+        | .terminated .hit => "hit"
+        | .terminated .probeLimit => "probelimit"
+        | _ => "running"
+      (st, s!"writes={p.writes} out={out}")
+    | _, _ => (st, "bad-op")
   | "dedup" :: _ => (st, "unmodelled")
   | "sys" :: _ => (st, "unmodelled")
   | "res" :: _ => (st, "unmodelled")
